@@ -46,7 +46,8 @@ Definition s_diff (l : list K) (os : list operand) : list K := filter (fun x => 
 Definition s_symdiff (l : list K) (o : operand) : list K :=
   filter (fun x => negb (opd_mem x o)) l ++ uniq (filter (fun x => negb (l_mem x l)) (o_elems o)).
 
-Definition spec_step (l : list K) (o : op) : list K * res ret :=
+(* operations with explicit operands *)
+Definition spec_step1 (l : list K) (o : op) : list K * res ret :=
   match o with
   | Add x => (l_add l x, Ok RNone)
   | Remove x => if l_mem x l then (l_remove x l, Ok RNone) else (l, Raise KeyError)
@@ -93,6 +94,14 @@ Definition spec_step (l : list K) (o : op) : list K * res ret :=
   | Iter => (l, Ok (RList l))
   | Reversed => (l, Ok (RList (rev l)))
   | Snapshot => (l, Ok (RSnap l l l (rev l) (seq 0 (length l))))
+  | SelfOp _ => (l, Raise (OtherExn 11))
+  end.
+
+(* an operand that is the set itself is an IndexedSet holding the same items *)
+Definition spec_step (l : list K) (o : op) : list K * res ret :=
+  match o with
+  | SelfOp k => spec_step1 l (expand_self k (Opd true l))
+  | _ => spec_step1 l o
   end.
 
 (* the cheap view recorded after every operation *)
